@@ -787,7 +787,9 @@ extend('C11', 'Round 9: a connection is re-used only after the clean-up '
        'verdict is reached on the cached answer, not on a narrowed list.')
 extend('C12', 'Round 9: flush() takes one snapshot of the timetable (the '
        'take-out is not inside a loop over the live timetable); the '
-       'deferral test of _pool_spawn looks at every bounded pool.')
+       'deferral test of _pool_spawn looks at every bounded pool; no entry '
+       'is removed by position after a pool dispatch that followed the '
+       'read of that position.')
 extend('C13', 'Round 9: BytesFormat renders with no lossy error handler; '
        'no recipient is looked up by position after '
        'set_recipients_delivered may have run.',
